@@ -18,7 +18,7 @@ CHECKS = {
          "a column is the cell-wise lookup or the missing-value AssertionError). The model is tied to the code by running labels_per_values and "
          "transform of real fitted objects (all classes, also rebuilt from JSON) against the model, and the Lean specification (Spec/Discretizer.lean: "
          "each row carries the label of the unique group containing it, distinct groups have distinct labels, float labels are ranks, missing values "
-         "per dropna) is evaluated on the implementation's own output.",
+         "per dropna) is evaluated on the implementation's own output. Whole frame (Disc.transform, on top of transform_spec: transform acts column by column): in every accepted frame the row holding a member of the i-th group - for numbers: whose first boundary >= it is the i-th leader - comes out with the i-th label, or missing again where features_dropna is False (transform_seen_qual, transform_seen_quant).",
     ref="DESIGN.md section 8 C04", technique="Lean 4 proof about a model of labels/transform + model/code correspondence on fitted objects",
     note=BASE_NOTE + " DataFrame.replace / numpy.select are abstracted to dict lookup by Python equality / first match; that distinct doubles get distinct 17-digit labels is an IEEE fact, not proved."),
  "C05": dict(
@@ -26,7 +26,7 @@ CHECKS = {
          "rejection is the AssertionError naming the feature, raised exactly for unexpected missing values; a qualitative column is accepted with fitted labels only "
          "(unseen -> default group's label) or rejected with that AssertionError (unseen without default group, unexpected missing). Tied to the code by transforming "
          "probe frames (boundaries and their float neighbours, extremes, unseen categories, missing values, empty/one-row frames) with real fitted objects and with the model; "
-         "the Lean predicate colAllowed judges the implementation's output.",
+         "the Lean predicate colAllowed judges the implementation's output. Whole frame: for every fitted state with Disc.Shape and C05.Ready (both evaluated by the driver on every real fitted state) transform never fails with anything but the missing-columns AssertionError or the AssertionError naming a fitted feature (transform_rejection_is_assertion), and every output cell of a fitted column is a label of its table, missing, or the designated missing-value output (transform_qual_labels_only, transform_quant_labels_only). On the code an AssertionError must also be justified by the frame (unseen category without default group, unexpected missing value), for objects as fitted and rebuilt from JSON.",
     ref="DESIGN.md section 8 C05", technique="Lean 4 proof (totality / decision logic of transform) + model/code correspondence on probe frames",
     note=BASE_NOTE + " Frames lacking a fitted column are outside the property's quantifier (correspondence only)."),
  "C06": dict(
@@ -40,14 +40,14 @@ CHECKS = {
     text="Lean theorems: in the model transform is a function of (state, frame) (no state is returned), each column's transform commutes with any selection of rows "
          "(subsets, permutations, repetitions: quant_rowwise / qual_rowwise), rejections are row-wise too, lengths are preserved. That the implementation refines this pure "
          "function is checked on every run: twin objects (fit+transform vs fit_transform), subsets / permutations / three re-indexings / repeated calls compared row by row and "
-         "with the model, fitted state and the caller's X, y, X_dev, y_dev deep-compared before/after.",
+         "with the model, fitted state and the caller's X, y, X_dev, y_dev deep-compared before/after. Whole frame: transform_frame_rowwise (for every fitted state and accepted frame, any selection of rows - subset, permutation, repetition - is accepted and yields the same selection of the output rows), transform_keeps_columns, transform_nonfeature_unchanged; read-only observers (summary, history, to_json) between transforms must not move the fitted mapping or the output.",
     ref="DESIGN.md section 8 C07", technique="Lean 4 proof (row-wise purity of the transform model) + refinement check on paired runs",
     note=BASE_NOTE + " Side effects on caller objects and pandas copy/view semantics are runtime facts: observed by the paired runs, not modelled (partial)."),
  "C17": dict(
     text="Lean theorems about the model of update_discretizer: an edit only touches the edited feature's order (frame condition), keeps every order a well-formed partition "
          "(update_WF, and updates_WF by induction over any edit history, so all C04/C05/C13 theorems apply again after every edit), is exactly GroupedList.group for two leaders, "
          "and refreshes the label table from the edited orders. Correspondence: after every edit of a random valid history the implementation's state equals the model's; judged on "
-         "the implementation: partition of the training rows before/after the edit, labels vs transform (C04 judge), JSON round trip and summary (C06 checks).",
+         "the implementation: partition of the training rows before/after the edit, labels vs transform (C04 judge), JSON round trip and summary (C06 checks). group merges the members of the discarded group into the kept one and leaves every other group as it was (group_merges_members, group_keeps_other_groups, through the C13 refinement), so those members are transformed into the kept group's label (group_edit_label with C04.transform_seen_qual); the summary judge of C16 runs after every edit.",
     ref="DESIGN.md section 8 C17", technique="Lean 4 proof (invariant over edit histories) + model/code correspondence after every edit",
     note=BASE_NOTE + " 'replace' is generated for qualitative features with fresh names only; moving already-merged missing values is rejected by the code with AssertionError and not generated."),
  "C01": dict(
@@ -76,8 +76,8 @@ CHECKS = {
     text="Lean theorems about the model of summary(): its rows only concern the requested feature(s) (summary_feature_only, summary_features), an unknown feature is refused, and the entries of a "
          "qualitative feature are (value, label) pairs of the very label table transform uses. Correspondence: summary() and summary(f) of real objects (also rebuilt from JSON) equal the model's; "
          "judged on the code: listed features, partition of known values, labels vs transform on a probe frame, missing values shown where transform sends them; history(): every recorded "
-         "association value is recomputed exactly by the Lean search model, first entry = raw distribution, last viable entry = fitted grouping.",
-    ref="DESIGN.md section 8 C16", technique="Lean 4 proof about the summary model + exact recomputation of history by the search model",
+         "association value is recomputed exactly by the Lean search model, first entry = raw distribution, last viable entry = fitted grouping. history(): the way _get_best_association tests and records its candidates is modelled (Model/History) and proved: every tested combination is recorded, the flags of a round are rejected..., at most one viable, then unchecked, unchecked combinations are at most as associated as the winner, and for a kept feature the last combination flagged viable is the fitted grouping over both rounds (twoRounds_lastViable_is_fit); judge.history evaluates that shape and the ordering on the implementation's own history.",
+    ref="DESIGN.md section 8 C16", technique="Lean 4 proof about the summary model and the test-and-record logic of history + exact recomputation of history by the search model",
     note=BASE_NOTE + " Row order / content order of the summary frame are not compared."),
  "C08": dict(
     text="Lean theorems: _remove_feature removes a feature from every per-feature attribute and touches no other feature (removeFeature_all_attributes / _frame); after the final "
@@ -107,7 +107,7 @@ CHECKS = {
          "processed feature depends only on its own entry (featureLoop_pointwise), hence any order of the feature list (any hash seed) and any superset of features give the same entry "
          "(featureLoop_perm, featureLoop_subset); results of a worker pool keyed by name can arrive in any completion order (updateAll_perm). On the code: paired fits of carvers and "
          "Discretizer: each feature alone / in a subset / all, shuffled feature lists and column orders, fresh interpreters with other PYTHONHASHSEED values, n_jobs=2,3 with the first "
-         "quantitative feature forced to finish last (harness-side wrapper of fit_feature), canonical values_orders and outputs compared.",
+         "quantitative feature forced to finish last (harness-side wrapper of fit_feature), canonical values_orders and outputs compared. transform: two fitted objects that agree on a feature give the same output column for it on any two frames that agree on that column, whatever else they hold (transform_column_local). On the code also: update_discretizer edits followed by transform with n_jobs=2 vs n_jobs=1.",
     ref="DESIGN.md section 8 C10", technique="Lean 4 proof (frame / permutation lemmas for the loops) + paired runs across subsets, hash seeds and n_jobs",
     note=BASE_NOTE + " Worker scheduling, pickling and process start are runtime facts: observed by the paired runs, a data race inside a worker is outside the model (partial)."),
  "C11": dict(
@@ -121,8 +121,8 @@ CHECKS = {
     text="Lean theorems about the orchestration facts MulticlassCarver relies on: carved classes are classes of the target (all but the smallest in string order), an indicator marks exactly the "
          "rows of its class, created names f_c identify (feature, class) uniquely when class labels contain no underscore (appendClass_injective_partial) and collide otherwise "
          "(names_collision). The column-by-column equality with independent BinaryCarvers is decided on the code: real MulticlassCarver vs real BinaryCarvers on each indicator, with class "
-         "labels whose string order differs from the numeric one, dev samples and non-default min_freq_mod.",
-    ref="DESIGN.md section 8 C12", technique="Lean 4 proof (naming / class-selection lemmas) + paired runs MulticlassCarver vs one-vs-rest BinaryCarvers",
+         "labels whose string order differs from the numeric one, dev samples and non-default min_freq_mod. The refinement itself is proved: Multi.assemble models the fitted state MulticlassCarver.fit builds out of its one-vs-rest carvers, and multiclass_column_eq_ovr shows that on every frame both accept, column f_c of its transform equals column f of the transform of the carver of class c (multiclass_keeps_iff, multiclass_raw_unchanged for the other clauses); the driver rebuilds Multi.assemble from the independent real BinaryCarvers and the harness compares it (features, types, orders, features_casting, transform) with the real MulticlassCarver on every case.",
+    ref="DESIGN.md section 8 C12", technique="Lean 4 proof (refinement: column f_c of the assembled multiclass state = column f of the one-vs-rest carver) + model/code correspondence of the assembled state + paired runs vs independent BinaryCarvers",
     note=BASE_NOTE + " Feature/class names making f'{f}_{c}' collide are not generated."),
  "C19": dict(
     text="Lean theorems about the model of the guards of fit (in call order, over an abstract description of the call): every call that is malformed in one of the listed ways is "
@@ -136,16 +136,16 @@ CHECKS = {
          "function, threshold and n_best: at most n_best features, returned features are input features with a defined measure, every returned feature's association with each earlier "
          "kept one is <= thresh_corr (greedy_pairwise / select_pairwise), a feature is filtered out only because of a better feature that was kept (greedy_left_out), no duplicates. "
          "On the code: every reported measure (Kruskal H, Tschuprow T, Cramer V, R, correlation distance) is recomputed independently, the Lean specification (SpecSelect.judge) judges the "
-         "returned list per feature type, the Lean model must return the same list when there is no tie, X and y are deep-compared.",
+         "returned list per feature type, the Lean model must return the same list when there is no tie, X and y are deep-compared. The returned list is in decreasing order of the measure (select_sorted) and does not depend on the order of the columns when no two features tie (select_perm_invariant). The measures themselves are modelled exactly in Lean (Model/Measures: Kruskal H, Pearson r2, Spearman rho2, chi2 of the contingency table) and the driver's exact values are compared with the selectors' own values and with the numpy recomputation.",
     ref="DESIGN.md section 8 C14", technique="Lean 4 proof (greedy filter / ranking logic) + independent recomputation of measures + model/code correspondence",
     note=BASE_NOTE + " colsample<1 (unseeded shuffle) and lists of several ranking measures are outside the checked configurations; scipy/statsmodels values are compared numerically (1e-9), not proved."),
  "C15": dict(
     text="Lean theorems: average ranks, tie sizes and rank sums are invariant under every strictly increasing re-encoding of a feature (avgRank_strictMono, rankSum_strictMono), and Kruskal-Wallis H "
          "depends only on (size, rank sum) of the groups (kruskalH_congr), so rank-based measures are unchanged by positive rescaling / monotone transforms; the selection logic is a function "
          "of the measure table and pairwise associations only (C14). On the code: metamorphic pairs on the real selectors (negation, rescaling by powers of two, renaming and re-ordering of "
-         "categories, row and column permutations, outlier measures gating the association measure) compared up to swaps of tied features, and target copies / monotone functions of the target must be returned.",
-    ref="DESIGN.md section 8 C15", technique="Lean 4 proof (rank invariance) + metamorphic pairs on the real selectors",
-    note=BASE_NOTE + " Invariance under negation (rank reflection, |rho|) and the target-copy clause are decided by the metamorphic runs only (partial); known finding C15-regression-distance."),
+         "categories, row and column permutations, outlier measures gating the association measure) compared up to swaps of tied features, and target copies / monotone functions of the target must be returned. On the exact Lean models of the measures: Kruskal-Wallis H is invariant under strictly increasing re-encodings and under negation (kruskal_invariant_strictMono, kruskal_invariant_neg: the average ranks of a sample add up to n(n+1)/2), Pearson r2 under every affine map a*x+b with a != 0, Spearman rho2 under monotone maps and negation, chi2 of the contingency table under renaming of the categories and permutations of the data rows (chi2_invariant_rename, chi2_invariant_perm_rows).",
+    ref="DESIGN.md section 8 C15", technique="Lean 4 proof (invariance of exact models of Kruskal H / Pearson / Spearman / chi2 under the re-encodings) + model/code correspondence of the measures + metamorphic pairs on the real selectors",
+    note=BASE_NOTE + " The target-copy clause and the end-to-end selectors are decided by the metamorphic runs (partial); known findings C15-regression-distance, C15-yates-2x2."),
 }
 NOT_YET = "check not built yet (construction in progress, see DESIGN.md section 13); will be claimed once its model, theorems and correspondence exist"
 
